@@ -111,10 +111,12 @@ pub fn stress(o: &Opts) -> i32 {
             out.emit(&json!({"a": "loops", "name": p["name"], "loops": loops, "ms": t0.elapsed().as_millis() as u64}));
             continue;
         }
+        // distinct outcomes only (the judge's work does not grow with the number of rounds); "times" = how often each was seen
+        let mut seen: std::collections::BTreeMap<String, (J, u64)> = std::collections::BTreeMap::new();
         for _ in 0..rounds {
             let st = fresh(&prog);
             let n = prog["threads"].as_array().unwrap().len();
-            let bar = Arc::new(std::sync::Barrier::new(n));
+            let bar = Arc::new(SpinBarrier::new(n));
             let (tx, rx) = std::sync::mpsc::channel();
             for (i, ops) in prog["threads"].as_array().unwrap().iter().enumerate() {
                 let (ops, s, b, tx) = (ops.clone(), Arc::clone(&st), Arc::clone(&bar), tx.clone());
@@ -132,12 +134,27 @@ pub fn stress(o: &Opts) -> i32 {
                     Err(_) => { out.emit(&json!({"a": "hang", "name": p["name"], "prog": prog, "finished_threads": done})); out.finish(); println!("HANG {}", p["name"]); std::process::exit(3); }
                 }
             }
+            let e = json!({"a": "end", "free": true, "rets": rets, "obs": obs(&st, count(&prog, "cn"), count(&prog, "ce"))});
+            seen.entry(e.to_string()).or_insert((e, 0)).1 += 1;
+        }
+        for (_, (mut e, times)) in seen {
+            e["times"] = json!(times);
             out.emit(&json!({"a": "reset", "prog": prog, "name": p["name"]}));
-            out.emit(&json!({"a": "end", "free": true, "rets": rets, "obs": obs(&st, count(&prog, "cn"), count(&prog, "ce"))}));
+            out.emit(&e);
         }
     }
     let n = out.n;
     out.finish();
     println!("{{\"events\": {n}}}");
     0
+}
+
+/// all threads leave together (busy-waiting: a std Barrier wakes its waiters one after another, far apart for these short operations)
+pub struct SpinBarrier { n: usize, arrived: std::sync::atomic::AtomicUsize }
+impl SpinBarrier {
+    pub fn new(n: usize) -> Self { Self { n, arrived: std::sync::atomic::AtomicUsize::new(0) } }
+    pub fn wait(&self) {
+        self.arrived.fetch_add(1, std::sync::atomic::Ordering::SeqCst);
+        while self.arrived.load(std::sync::atomic::Ordering::SeqCst) < self.n { std::hint::spin_loop(); }
+    }
 }
